@@ -36,6 +36,11 @@ def main():
         jobs, args = int(args[1]), args[2:]
     names = args or sorted(n for n in os.listdir(os.path.join(VERIF, "seeded")) if os.path.isfile(os.path.join(VERIF, "seeded", n, "patch.diff")))
     res = {}
+    if args:        # partial run: keep the other entries of the last full run
+        try:
+            res = json.load(open(os.path.join(VERIF, "seeded", "status.json")))
+        except Exception:
+            res = {}
     with cf.ThreadPoolExecutor(jobs) as ex:
         for name, r in ex.map(one, names):
             res[name] = r
